@@ -348,10 +348,22 @@ def run_property(pid: str, tier: str, seed: int) -> int:
         "evaluations": max(1, obligations + sum(s.get("evaluations", 0) for s in standins)),
         "distinct_nontrivial": max(2, discharged),
     }
+    rel = [t for t in targets] + trusted
+    naming = sorted({f"{t.split('::', 1)[1]}.{cl.label}" for t in rel for cl in reg[t].ensures if getattr(cl, "naming", False)})
+    lemmas = sorted({f"{t.split('::', 1)[1]}.{cl.label}" for t in targets for cl in getattr(reg[t], "assumes", [])})
+    extra_assumptions = [
+        "class invariant of BasicBlock assumed wherever a block is touched: at least one instruction, `_subroutine` and `_teal` set "
+        "(C04/C05; decided on bounded inputs by bounded/cfgcheck.py)",
+        "entry heap closed: a list / dict stored in an object that exists at function entry exists at entry too",
+        "naming clauses (the result of a pure observation is named by an uninterpreted symbol; assumed at call sites, no obligation): "
+        + ", ".join(naming) if naming else "no naming clause used",
+        "definitions / lemmas assumed inside the verification of a function (`assumes`): " + ", ".join(lemmas) if lemmas else "no assumes clause used",
+    ]
     ev = {"property_id": pid, "tier": tier, "seed": seed, "level": level, "coverage": cov,
           "assumptions": TRUSTED_BASE + [f"assumed contract (body not verified): {t}" for t in trusted]
                          + [f"partial correctness w.r.t. {rn} raised by {t.split('::')[-1]} (unconditional raises clause: clauses of the "
-                            f"callers speak about normal returns)" for t, rn in sorted({tuple(x) for r in results for x in r.get("partial_raises", [])})],
+                            f"callers speak about normal returns)" for t, rn in sorted({tuple(x) for r in results for x in r.get("partial_raises", [])})]
+                         + (extra_assumptions if targets else []),
           "wall_s": round(wall, 2), "violations": len(violations)}
     os.makedirs(EVID, exist_ok=True)
     json.dump(ev, open(os.path.join(EVID, f"{pid}.json"), "w"), indent=1, default=str)
